@@ -946,10 +946,12 @@ class Hydrodynamics:
                     events=shock,
                     rtol=self.rtol,
                     atol=0,
+                    dense_output=True,
                 )  # solve differential equation all the way from v = v+ to v = 0
-                vPlasma = solShock.t
-                xi = solShock.y[0]
-                T = solShock.y[1]
+                # The solver's own nodes are too sparse for the quadrature below:
+                # resample the solution uniformly in v
+                vPlasma = np.linspace(solShock.t[0], solShock.t[-1], 400)
+                xi, T = solShock.sol(vPlasma)
                 enthalpy = np.array([self.thermodynamics.wHighT(t) for t in T])
 
                 # Integrate the solution to get kappa
@@ -969,11 +971,11 @@ class Hydrodynamics:
                 xi0T0,
                 rtol=self.rtol,
                 atol=0,
-                args=(False,)
+                args=(False,),
+                dense_output=True,
             )  # solve differential equation all the way from v = v- to v = 0
-            vPlasma = solRarefaction.t
-            xi = solRarefaction.y[0]
-            T = solRarefaction.y[1]
+            vPlasma = np.linspace(solRarefaction.t[0], solRarefaction.t[-1], 400)
+            xi, T = solRarefaction.sol(vPlasma)
             enthalpy = np.array([self.thermodynamics.wLowT(t) for t in T])
 
             # Integrate the solution to get kappa
